@@ -1,4 +1,5 @@
 import ast
+import copy
 from typing import Any, Dict, List, Optional, Tuple
 
 from func_adl.ast.func_adl_ast_utils import FuncADLNodeTransformer
@@ -69,6 +70,15 @@ def remove_empty_metadata(a: ast.AST) -> ast.AST:
     """
 
     class _cleaner(ast.NodeTransformer):
+        def generic_visit(self, node: ast.AST):
+            # NodeTransformer edits nodes and their child lists in place, so work on a
+            # shallow copy (which keeps the executor and other attributes stored on nodes).
+            node = copy.copy(node)
+            for name, value in ast.iter_fields(node):
+                if isinstance(value, list):
+                    setattr(node, name, list(value))
+            return super().generic_visit(node)
+
         def visit_Call(self, node: ast.Call):
             n = self.generic_visit(node)
             assert isinstance(n, ast.Call)
